@@ -57,7 +57,7 @@ func (s *service) Create(ctx context.Context, record kvs.Record) (string, error)
 	if ctx.Err() != nil {
 		return "", ctx.Err()
 	}
-	if r, ok := s.recs[record.Key]; ok {
+	if r, ok := s.liveRecord(record.Key); ok {
 		return r.Version, errors.ErrExist
 	}
 	record.Version = ulidutils.NewID()
@@ -68,16 +68,9 @@ func (s *service) Create(ctx context.Context, record kvs.Record) (string, error)
 func (s *service) Get(ctx context.Context, key string) (kvs.Record, error) {
 	s.lock.Lock()
 	defer s.lock.Unlock()
-	r, ok := s.recs[key]
+	r, ok := s.liveRecord(key)
 	if !ok {
 		return kvs.Record{}, errors.ErrNotExist
-	}
-	if r.ExpiresAt != nil {
-		if r.ExpiresAt.Before(time.Now()) {
-			delete(s.recs, key)
-			s.notifyWaiters(key)
-			return kvs.Record{}, errors.ErrNotExist
-		}
 	}
 	return r, nil
 }
@@ -108,16 +101,9 @@ func (s *service) GetMany(ctx context.Context, keys ...string) ([]*kvs.Record, e
 
 	res := make([]*kvs.Record, len(keys))
 	for idx, key := range keys {
-		r, ok := s.recs[key]
+		r, ok := s.liveRecord(key)
 		if !ok {
 			continue
-		}
-		if r.ExpiresAt != nil {
-			if r.ExpiresAt.Before(time.Now()) {
-				delete(s.recs, key)
-				s.notifyWaiters(key)
-				continue
-			}
 		}
 		res[idx] = &r
 	}
@@ -127,16 +113,9 @@ func (s *service) GetMany(ctx context.Context, keys ...string) ([]*kvs.Record, e
 func (s *service) CasByVersion(ctx context.Context, record kvs.Record) (kvs.Record, error) {
 	s.lock.Lock()
 	defer s.lock.Unlock()
-	r, ok := s.recs[record.Key]
+	r, ok := s.liveRecord(record.Key)
 	if !ok {
 		return kvs.Record{}, errors.ErrNotExist
-	}
-	if r.ExpiresAt != nil {
-		if r.ExpiresAt.Before(time.Now()) {
-			delete(s.recs, record.Key)
-			s.notifyWaiters(record.Key)
-			return kvs.Record{}, errors.ErrNotExist
-		}
 	}
 	if r.Version != record.Version {
 		return kvs.Record{}, errors.ErrConflict
@@ -151,7 +130,7 @@ func (s *service) Delete(ctx context.Context, key string) error {
 	s.lock.Lock()
 	defer s.lock.Unlock()
 
-	if _, ok := s.recs[key]; !ok {
+	if _, ok := s.liveRecord(key); !ok {
 		return errors.ErrNotExist
 	}
 	delete(s.recs, key)
@@ -162,7 +141,7 @@ func (s *service) Delete(ctx context.Context, key string) error {
 func (s *service) WaitForVersionChange(ctx context.Context, key, ver string) error {
 	for {
 		s.lock.Lock()
-		r, ok := s.recs[key]
+		r, ok := s.liveRecord(key)
 		if !ok {
 			s.lock.Unlock()
 			return errors.ErrNotExist
@@ -179,24 +158,64 @@ func (s *service) WaitForVersionChange(ctx context.Context, key, ver string) err
 		ws.waiters++
 		s.lock.Unlock()
 
+		// the record expiration is a change too: wake up when it is due
+		var expired <-chan time.Time
+		var tmr *time.Timer
+		if r.ExpiresAt != nil {
+			tmr = time.NewTimer(time.Until(*r.ExpiresAt) + time.Millisecond)
+			expired = tmr.C
+		}
+
 		select {
 		case <-ctx.Done():
+			if tmr != nil {
+				tmr.Stop()
+			}
 			s.lock.Lock()
 			defer s.lock.Unlock()
-			ws1, ok := s.verChange[key]
-			if !ok || ws.done != ws1.done {
-				return ctx.Err()
-			}
-			ws.waiters--
-			if ws.waiters == 0 {
-				close(ws.done)
-				delete(s.verChange, key)
-			}
+			s.leaveWaiters(key, ws)
 			return ctx.Err()
+		case <-expired:
+			s.lock.Lock()
+			s.leaveWaiters(key, ws)
+			s.lock.Unlock()
+			// need to check the record, go around
 		case <-ws.done:
+			if tmr != nil {
+				tmr.Stop()
+			}
 			// need to check the version, go around
 		}
 	}
+}
+
+// leaveWaiters unregisters one waiter from ws, if ws is still the current waiters
+// group for the key. The s.lock must be held
+func (s *service) leaveWaiters(key string, ws *waiter) {
+	ws1, ok := s.verChange[key]
+	if !ok || ws.done != ws1.done {
+		return
+	}
+	ws.waiters--
+	if ws.waiters == 0 {
+		close(ws.done)
+		delete(s.verChange, key)
+	}
+}
+
+// liveRecord returns the record by the key if it exists and is not expired. The expired
+// record is removed like it would be deleted. The s.lock must be held
+func (s *service) liveRecord(key string) (kvs.Record, bool) {
+	r, ok := s.recs[key]
+	if !ok {
+		return kvs.Record{}, false
+	}
+	if r.ExpiresAt != nil && r.ExpiresAt.Before(time.Now()) {
+		delete(s.recs, key)
+		s.notifyWaiters(key)
+		return kvs.Record{}, false
+	}
+	return r, true
 }
 
 func (s *service) ListKeys(ctx context.Context, pattern string) (iterable.Iterator[string], error) {
@@ -209,7 +228,7 @@ func (s *service) ListKeys(ctx context.Context, pattern string) (iterable.Iterat
 	}
 	res := []string{}
 	for k := range s.recs {
-		if g.Match(k) {
+		if _, ok := s.liveRecord(k); ok && g.Match(k) {
 			res = append(res, k)
 		}
 	}
